@@ -281,6 +281,18 @@ def rule_plain_data(eng, rep):
                 cur = nxt[0]
                 hops += 1
             st = cfgr.ast_of(cur)
+            if ty == "float" and not (isinstance(st, ast.Return) and is_none(st.value)):
+                # the NaN / non-finite test may be spelled `not math.isfinite(d)`: the return sits on the false edge of that cond -- look through cond nodes both ways
+                seen, todo = set(), [m]
+                while todo:
+                    c = todo.pop()
+                    if c in seen or len(seen) > 8:
+                        continue
+                    seen.add(c)
+                    if cfgr.kind(c) == "cond":
+                        todo += [x for x, _e in cfgr.succ(c)]
+                    elif isinstance(cfgr.ast_of(c), ast.Return) and is_none(cfgr.ast_of(c).value):
+                        st = cfgr.ast_of(c)
             if isinstance(st, ast.Return):
                 if ty in ("dict", "list"):
                     rec = [c for c in ast.walk(st.value) if isinstance(c, ast.Call) and any(t.fid == rn.fid for t in eng.res.calls[id(c)].targets)]
